@@ -1,11 +1,13 @@
-"""Spike: minimal LLVM-14 textual IR front end (typed pointers)."""
+"""Minimal LLVM-14 textual IR front end (typed pointers): types, data layout, globals,
+aliases, functions split into basic blocks.  Instruction decoding lives in llsym.py."""
 import re, sys
 
 # ---------------------------------------------------------------- types
 class Ty:
-    __slots__ = ('k', 'a', 'b', 'packed', 'name')
+    __slots__ = ('k', 'a', 'b', 'packed', 'name', 'sz', 'al', 'res', 'offs')
     def __init__(s, k, a=None, b=None, packed=False, name=None):
         s.k, s.a, s.b, s.packed, s.name = k, a, b, packed, name
+        s.sz = s.al = s.res = s.offs = None
     def __repr__(s):
         if s.k == 'int': return 'i%d' % s.a
         if s.k in ('double', 'float', 'void', 'label', 'metadata', 'x86_fp80'): return s.k
@@ -232,13 +234,20 @@ class Module:
 
     # ---- layout
     def resolve(s, t):
+        if t.k != 'named': return t
+        if t.res is not None: return t.res
+        t0 = t
         while t.k == 'named':
             r = s.named.get(t.name)
             if r is None: raise ValueError('opaque type ' + t.name)
             t = r
+        t0.res = t
         return t
     def align(s, t):
         t = s.resolve(t)
+        if t.al is None: t.al = s._align(t)
+        return t.al
+    def _align(s, t):
         if t.k == 'int':
             b = (t.a + 7)//8; a = 1
             while a < b: a *= 2
@@ -255,6 +264,9 @@ class Module:
         raise ValueError('align ' + repr(t))
     def size(s, t):
         t = s.resolve(t)
+        if t.sz is None: t.sz = s._size(t)
+        return t.sz
+    def _size(s, t):
         if t.k == 'int':
             b = (t.a + 7)//8; a = 1
             while a < b: a *= 2
@@ -277,13 +289,16 @@ class Module:
         if t.k == 'fn': return 1
         raise ValueError('size ' + repr(t))
     def field_offset(s, t, idx):
-        t = s.resolve(t); off = 0
-        for i, f in enumerate(t.a):
-            if not t.packed:
-                a = s.align(f); off = (off + a - 1)//a*a
-            if i == idx: return off
-            off += s.size(f)
-        raise IndexError
+        t = s.resolve(t)
+        if t.offs is None:
+            offs = []; off = 0
+            for i, f in enumerate(t.a):
+                if not t.packed:
+                    a = s.align(f); off = (off + a - 1)//a*a
+                offs.append(off)
+                off += s.size(f)
+            t.offs = offs
+        return t.offs[idx]
 
 if __name__ == '__main__':
     import time
